@@ -8,14 +8,13 @@ from __future__ import annotations
 import copy
 import random
 import re
-import time
-from typing import Any, Dict, List, Optional, Tuple
+from typing import Any, Dict, List, Tuple
 
 from lib.bounded import BObl
 from spec.gen import random_model
-from spec.model import view, normalize, diff
-from spec.surface import surface, surface_ex, SurfaceError
-from bounded.c01 import parse_real, evaluate, reduce_failure, _culprit_name, _path, _same, _chars, minimize_model
+from spec.model import view, diff
+from spec.surface import surface
+from bounded.c01 import parse_real, evaluate, reduce_failure, _culprit_name, _path, _same, _chars
 
 # spelling decisions that concern a table and its columns (what surrounds properties); everything else stays in
 # documentation spelling so that spelling defects of other elements (C01's findings) do not hide C15's clauses
@@ -246,13 +245,13 @@ class Same(BObl):
             'variation) parsed with the option off and on: same acceptance, equal views (except the flag itself), '
             'equal .dbml and equal .sql; a spelling rejected under both values is replaced by the next seed (<= 3 '
             'tries); non-trivial = accepted')
-    bound = 'quick 320 documents x 2 option values, thorough 12000'
+    bound = 'quick 500 documents x 2 option values, thorough 12000'
     budget = {'quick': 20.0, 'thorough': 200.0}
     chunk = 16
     _memo: Tuple[Any, Any] = (None, None)
 
     def cases(self, tier, seed):
-        n = 320 if tier == 'quick' else 12000
+        n = 500 if tier == 'quick' else 12000
         for i in range(n):
             yield {'m': seed * 1000003 + 1100000 + i, 's': seed * 7919 + 11 * i + 5,
                    'size': 'small' if i % 4 else 'medium'}
@@ -318,12 +317,12 @@ class Flip(BObl):
             'A.dbml (on) shows properties; A off == B.dbml as parsed (exactly the property lines disappear); A on again '
             '== A on before; B with properties attached and option off renders none; B on == A on.  Documents whose '
             '.dbml raises regardless of the option are skipped')
-    bound = 'quick 400 documents x 5 renderings, thorough 12000'
+    bound = 'quick 600 documents x 5 renderings, thorough 12000'
     budget = {'quick': 20.0, 'thorough': 200.0}
     chunk = 16
 
     def cases(self, tier, seed):
-        n = 400 if tier == 'quick' else 12000
+        n = 600 if tier == 'quick' else 12000
         for i in range(n):
             yield {'m': seed * 1000003 + 900000 + i, 's': seed * 7919 + 5 * i + 3, 'size': 'small' if i % 3 else 'tiny'}
 
